@@ -245,7 +245,7 @@ impl Property for C17 {
     fn runs(&self, tier: Tier) -> u64 {
         match tier {
             Tier::Quick => 1_500,
-            Tier::Thorough => 30_000,
+            Tier::Thorough => 400_000,
         }
     }
     fn assumptions(&self) -> Vec<&'static str> {
